@@ -54,22 +54,38 @@ class Rust:
         self.proc = subprocess.Popen([BIN], stdin=subprocess.PIPE, stdout=subprocess.PIPE,
                                      bufsize=1 << 16, cwd=RUST_DIR)
 
-    def call(self, req: Dict[str, Any]) -> Dict[str, Any]:
+    def _spawn(self) -> None:
+        self.proc = subprocess.Popen([BIN], stdin=subprocess.PIPE, stdout=subprocess.PIPE,
+                                     bufsize=1 << 16, cwd=RUST_DIR)
+
+    def call(self, req: Dict[str, Any], retry: bool = False) -> Dict[str, Any]:
+        """One request/response. retry=True (only for requests that do not depend on harness-side session
+        state) restarts a dead harness process once and repeats the request."""
         assert self.proc.stdin is not None and self.proc.stdout is not None
         data = (json.dumps(req, separators=(",", ":")) + "\n").encode()
-        try:
-            self.proc.stdin.write(data)
-            self.proc.stdin.flush()
-            line = self.proc.stdout.readline()
-        except (BrokenPipeError, OSError) as exc:
-            raise HarnessError(f"rust harness pipe failed: {exc!r}")
-        if not line:
-            rc = self.proc.poll()
-            raise HarnessError(f"rust harness died (rc={rc}) on request {str(req)[:200]}")
-        return json.loads(line)
+        for attempt in (0, 1):
+            try:
+                self.proc.stdin.write(data)
+                self.proc.stdin.flush()
+                line = self.proc.stdout.readline()
+                if line:
+                    return json.loads(line)
+                err = f"rust harness died (rc={self.proc.poll()})"
+            except (BrokenPipeError, OSError) as exc:
+                err = f"rust harness pipe failed: {exc!r}"
+            if retry and attempt == 0:
+                try:
+                    self.proc.kill()
+                except Exception:
+                    pass
+                self._spawn()
+                continue
+            raise HarnessError(f"{err} on request {str(req)[:200]}")
+        raise HarnessError("unreachable")
 
     def cpu_batch(self, cases: List[Dict[str, Any]]) -> List[Dict[str, Any]]:
-        resp = self.call({"cmd": "cpu.batch", "cases": cases})
+        stateless = not any(c.get("keep") for c in cases)
+        resp = self.call({"cmd": "cpu.batch", "cases": cases}, retry=stateless)
         if not resp.get("ok"):
             raise HarnessError(f"cpu.batch failed: {resp}")
         return resp["results"]
